@@ -35,7 +35,11 @@ def run(tier, seed):
     vd = D.Verdict("C14", tier, seed)
     covs, failed = bounded.run_units(vd, UNITS)
     try:
-        binary, _ = D.build_native()
+        try:
+            binary, _ = D.build_native()
+        except D.BuildError:
+            # the part that drives the built binary does not need the rest of the harness
+            binary, _ = D.build_native(binonly=True)
         env = {"VXN_SOLSTAT_BIN": D.build_repo_binary()}
     except D.BuildError as e:
         vd.add_undecided(str(e)[:800])
